@@ -98,6 +98,7 @@ func (srv *Session) consumeSingleCommand(ctx context.Context, reader *buffer.Rea
 		return err
 	}
 
+	verifYield("cmd.before-admission")
 	if srv.closing.Load() {
 		return nil
 	}
@@ -105,9 +106,11 @@ func (srv *Session) consumeSingleCommand(ctx context.Context, reader *buffer.Rea
 	// NOTE: we increase the wait group by one in order to make sure that idle
 	// connections are not blocking a close.
 	srv.wg.Add(1)
+	verifYield("cmd.admitted")
 	srv.logger.Debug("<- incoming command", slog.Int("length", length), slog.String("type", t.String()))
 	err = srv.handleCommand(ctx, conn, t, reader, writer)
 	srv.wg.Done()
+	verifYield("cmd.done")
 	if errors.Is(err, io.EOF) {
 		return nil
 	}
